@@ -2,7 +2,7 @@
 from harness import exchange_check as xc
 
 TRUSTED_EXTRA = xc.TRUSTED_EXTRA
-PLAN = [("feeborrow", "small", 70, 1500), ('mixed', 'medium', 50, 1200), ('loans', 'medium', 70, 1800), ('noprice', 'small', 40, 800)]
+PLAN = [("feeborrow", "small", 70, 1500), ('mixed', 'medium', 50, 1200), ('loans', 'medium', 70, 1800), ('noprice', 'small', 40, 800), ('cancelrepay', 'small', 30, 500)]
 
 
 def run(chk):
